@@ -14,6 +14,8 @@ pub fn crash_history_strategy(max: usize) -> impl Strategy<Value = Vec<Op>> {
         // a batch whose oplog entry alone exceeds the 64 KiB threshold that forces a flush, and one
         // that takes the log across the 252/253 varint boundary
         1 => prop_oneof![Just(Op::Big(830)), Just(Op::Big(251))],
+        // a batch that fills part of one 32-bit bitfield word
+        4 => (9u32..=31).prop_map(Op::Big),
     ];
     prop::collection::vec(op, 0..max)
 }
@@ -155,7 +157,7 @@ pub fn run(ctx: &Ctx) {
     );
     ctx.assume("each storage operation is atomic and durable in issue order (given by the statement)");
     ctx.assume("crashes before the first build() has returned are outside the statement (no acknowledged state yet)");
-    let cfg = CrashCfg { torn: false, torn_only: false, recurse_every: Some(8), suffix: true, check_contig: false, seed: ctx.seed };
+    let cfg = CrashCfg { torn: false, torn_only: false, recurse_every: Some(8), suffix: true, check_contig: false, seed: ctx.seed, suffix_variant: 0 };
     // exhaustive: alphabet of C01 without the pure reads
     let l = ctx.tier.pick(4u32, 5u32);
     let n = seq_count(8, l);
@@ -185,7 +187,7 @@ pub fn replay(case: &Value) -> Check {
         }
     }
     let ops: Vec<Op> = serde_json::from_value(case.clone()).map_err(|e| Failure::new("bad-replay", e.to_string()))?;
-    let cfg = CrashCfg { torn: false, torn_only: false, recurse_every: Some(8), suffix: true, check_contig: false, seed: 1 };
+    let cfg = CrashCfg { torn: false, torn_only: false, recurse_every: Some(8), suffix: true, check_contig: false, seed: 1, suffix_variant: 0 };
     let mut l = Local::default();
     test_history(&ops, &cfg, &mut l)
 }
